@@ -31,6 +31,37 @@ type Eval struct {
 	shift map[string]string // bound variable -> slice offset chosen for re-indexing
 	depth int
 	errs  []string
+	// polarity tracking for existential quantifiers: mode says whether the
+	// clause is being assumed (1) or proved (2); neg/nopol give the polarity
+	// of the current sub-expression inside the clause
+	mode  int
+	neg   bool
+	nopol bool
+	hints map[string][]string // exists-bound variable -> witness candidates (hint(k, e))
+}
+
+const (
+	modeAssume = 1
+	modeProve  = 2
+)
+
+// assuming returns a copy of ev that evaluates a clause which is assumed.
+func (ev *Eval) assuming() *Eval {
+	c := ev.sub()
+	c.mode = modeAssume
+	return c
+}
+
+func (ev *Eval) flipped() *Eval {
+	c := ev.sub()
+	c.neg = !c.neg
+	return c
+}
+
+func (ev *Eval) unpolar() *Eval {
+	c := ev.sub()
+	c.nopol = true
+	return c
 }
 
 func (ev *Eval) fail(format string, args ...interface{}) {
@@ -168,6 +199,9 @@ func (ev *Eval) eval1(e ast.Expr) *Val {
 	case *ast.Ident:
 		return ev.ident(x)
 	case *ast.UnaryExpr:
+		if x.Op == token.NOT {
+			return vBool(not(ev.flipped().evalBool(x.X)))
+		}
 		v := ev.eval(x.X)
 		switch x.Op {
 		case token.NOT:
@@ -420,7 +454,8 @@ func (ev *Eval) binary(x *ast.BinaryExpr) *Val {
 	case token.LOR:
 		return vBool(or(ev.evalBool(x.X), ev.evalBool(x.Y)))
 	}
-	a, b := ev.eval(x.X), ev.eval(x.Y)
+	un := ev.unpolar()
+	a, b := un.eval(x.X), un.eval(x.Y)
 	if a == nil || b == nil {
 		return vBool("false")
 	}
@@ -668,11 +703,19 @@ func (ev *Eval) indexExpr(x *ast.IndexExpr) *Val {
 		loc := &PtrInfo{Heap: elemHeapPrefix(et), Base: []string{b.Fs[0].T, arith("+", b.Fs[1].T, i.T)}, Ty: et}
 		return f.load(ev.st, &Val{K: KPtr, Ty: types.NewPointer(et), P: loc}, et)
 	case KSeq:
-		return vInt(sel(b.T, i.T), nil)
+		// a ghost sequence is a sequence of bytes
+		el := &Val{K: KInt, T: sel(b.T, i.T), Ty: types.Typ[types.Uint8]}
+		f.pureFacts(ev.st, el)
+		return vInt(el.T, nil)
 	case KStr:
 		return vInt("(gstr.at "+b.T+" "+i.T+")", nil)
 	case KArr:
-		return f.arrayIndex(b, i.T)
+		el := f.arrayIndex(b, i.T)
+		// typing facts of the element (every heap array holds values of its element type)
+		for _, l := range leaves(el) {
+			f.pureFacts(ev.st, l)
+		}
+		return el
 	case KMap:
 		mt := b.Ty.Underlying().(*types.Map)
 		mv := f.mapValue(ev.st, b, i, mt)
@@ -788,10 +831,64 @@ func (ev *Eval) quantifier(kind string, fl *ast.FuncLit) *Val {
 		f.boundSorts = append(f.boundSorts, srt)
 	}
 	f.qfacts = append(f.qfacts, nil)
+	if kind == "exists" {
+		sub.hints = map[string][]string{}
+	}
 	body := sub.evalBool(ret.Results[0])
 	f.qfacts = f.qfacts[:len(f.qfacts)-1]
+	// the enclosing universally bound variables (for skolem functions)
+	var outer, outerSorts []string
+	outerOK := true
+	for i := 0; i < nb; i++ {
+		if i < len(f.boundSorts) && f.boundSorts[i] != "" {
+			outer = append(outer, f.boundActive[i])
+			outerSorts = append(outerSorts, f.boundSorts[i])
+		} else {
+			outerOK = false // inside a spec definition with heap parameters
+		}
+	}
 	f.boundActive = f.boundActive[:nb]
 	f.boundSorts = f.boundSorts[:nbs]
+	if kind == "exists" && len(bnames) == 1 && !ev.nopol && ev.mode != 0 && outerOK && strings.HasPrefix(decls[0], "("+bnames[0]+" Int)") {
+		bn := bnames[0]
+		hyp := (ev.mode == modeAssume) != ev.neg // the formula acts as a hypothesis
+		app := func(fn string) string {
+			if len(outer) == 0 {
+				return fn
+			}
+			return "(" + fn + " " + strings.Join(outer, " ") + ")"
+		}
+		if f.skolems == nil {
+			f.skolems = map[*ast.FuncLit]skolemInfo{}
+		}
+		if hyp {
+			// skolemize by hand so that the witness has a name which a later
+			// proof of the same clause can offer as a candidate
+			sk := f.sc.fresh("sk." + bn)
+			f.sc.declareFun(sk, outerSorts, "Int")
+			f.skolems[fl] = skolemInfo{fn: sk, arity: len(outer)}
+			w := app(sk)
+			return vBool(replaceToken(and(append(append([]string{}, ranges...), body)...), bn, w))
+		}
+		// goal: offer the witness of the assumed instance and the hints
+		var cands []string
+		if si, ok := f.skolems[fl]; ok && si.arity == len(outer) {
+			cands = append(cands, app(si.fn))
+		}
+		cands = append(cands, sub.hints[bn]...)
+		if len(cands) > 0 {
+			full := and(append(append([]string{}, ranges...), body)...)
+			var ds []string
+			for _, c := range cands {
+				if strings.Contains(c, bn) {
+					continue
+				}
+				ds = append(ds, replaceToken(full, bn, c))
+			}
+			ds = append(ds, "(exists ("+decls[0]+") "+full+")")
+			return vBool(or(ds...))
+		}
+	}
 	// re-index: forall i :: P(s[off+i])  ==>  forall j :: P'(s[j]) with i = j-off,
 	// so that the array access itself can serve as the trigger.
 	for _, bn := range bnames {
@@ -851,7 +948,18 @@ func (ev *Eval) callExpr(x *ast.CallExpr) *Val {
 			return ev.quantifier(name, fl)
 		}
 	case "implies":
-		return vBool(implies(ev.evalBool(x.Args[0]), ev.evalBool(x.Args[1])))
+		return vBool(implies(ev.flipped().evalBool(x.Args[0]), ev.evalBool(x.Args[1])))
+	case "hint":
+		// hint(k, e): e is a witness candidate for the exists-bound variable k
+		if id, ok := x.Args[0].(*ast.Ident); ok && len(x.Args) == 2 && ev.hints != nil {
+			if bv, ok := ev.bound[id.Name]; ok {
+				w := ev.eval(x.Args[1])
+				if w != nil && w.K == KInt {
+					ev.hints[bv.T] = append(ev.hints[bv.T], w.T)
+				}
+			}
+		}
+		return vBool("true")
 	case "old":
 		sub := ev.sub()
 		sub.st = ev.old
@@ -886,7 +994,7 @@ func (ev *Eval) callExpr(x *ast.CallExpr) *Val {
 	case "abs":
 		return vInt("(iabs "+arg(0).T+")", nil)
 	case "ite":
-		c := ev.evalBool(x.Args[0])
+		c := ev.unpolar().evalBool(x.Args[0])
 		a, b := arg(1), arg(2)
 		if a.K == KBool {
 			return vBool(ite(c, a.T, b.T))
@@ -1388,6 +1496,24 @@ func (f *FuncVC) resolveMods(ev *Eval, mods []ModTarget) []resolvedMod {
 				out = append(out, resolvedMod{kind: "elems", heap: mapHeapPrefix(v.Ty), obj: v.T, text: m.Text})
 				continue
 			}
+			if v.K == KPtr && v.Ty != nil {
+				// pointer to an array: its elements
+				if pt, ok := v.Ty.Underlying().(*types.Pointer); ok {
+					if at, ok := pt.Elem().Underlying().(*types.Array); ok {
+						if v.P == nil && len(v.Fs) == 2 {
+							out = append(out, resolvedMod{kind: "elems", heap: elemHeapPrefix(at.Elem()), obj: v.Fs[0].T, off: v.Fs[1].T, ln: num(at.Len()), text: m.Text})
+							continue
+						}
+						if v.P != nil && strings.HasPrefix(v.P.Heap, "H:") && len(v.P.Base) == 1 {
+							if ps, nIdx := pathString(v.P.Path); nIdx == 0 && ps != "" {
+								// an array field of a struct: that field
+								out = append(out, resolvedMod{kind: "field", heap: v.P.Heap, field: ps, obj: v.P.Base[0], text: m.Text})
+								continue
+							}
+						}
+					}
+				}
+			}
 			if v.K != KSlice {
 				ev.fail("modifies %s: not a slice", m.Text)
 				continue
@@ -1439,6 +1565,12 @@ type Conj struct {
 // non-recursive predicate calls and the right-hand side of ==> are split so
 // that each conjunct becomes its own obligation.
 func (ev *Eval) evalConj(e ast.Expr) []Conj {
+	if ev.mode == 0 {
+		// conjunct splitting is only used for clauses that are proved
+		c := ev.sub()
+		c.mode = modeProve
+		return c.evalConj(e)
+	}
 	switch x := e.(type) {
 	case *ast.ParenExpr:
 		return ev.evalConj(x.X)
@@ -1449,7 +1581,7 @@ func (ev *Eval) evalConj(e ast.Expr) []Conj {
 	case *ast.CallExpr:
 		if id, ok := x.Fun.(*ast.Ident); ok {
 			if id.Name == "implies" && len(x.Args) == 2 {
-				a := ev.evalBool(x.Args[0])
+				a := ev.flipped().evalBool(x.Args[0])
 				var out []Conj
 				for _, c := range ev.evalConj(x.Args[1]) {
 					out = append(out, Conj{exprString(x.Args[0]) + " ==> " + c.Label, implies(a, c.Term)})
@@ -1583,7 +1715,7 @@ func (ev *Eval) identKnown(name string) bool {
 
 func isContractBuiltin(name string) bool {
 	switch name {
-	case "forall", "exists", "implies", "old", "pre", "len", "cap", "min", "max", "abs", "ite", "fresh", "isnil", "be16", "be32", "ref", "off", "has", "seen", "nseen", "is", "pow2", "typeis", "int", "bool", "string":
+	case "forall", "exists", "implies", "old", "pre", "len", "cap", "min", "max", "abs", "ite", "hint", "fresh", "isnil", "be16", "be32", "ref", "off", "has", "seen", "nseen", "is", "pow2", "typeis", "int", "bool", "string":
 		return true
 	}
 	return false
